@@ -12,6 +12,7 @@ import (
 	"time"
 
 	sdk "github.com/cosmos/cosmos-sdk/types"
+	didtypes "github.com/medibloc/panacea-core/v2/x/did/types"
 )
 
 type Profile struct {
@@ -363,6 +364,12 @@ func (g *Gen) emit(t *TxSpec) int {
 			}
 			return 0, false
 		},
+		DidDoc: func(d string) *didtypes.DIDDocument {
+			if e := g.plan.Did[d]; e != nil && !e.Tomb {
+				return e.Doc
+			}
+			return nil
+		},
 		Built: func(tx, m int) sdk.Msg {
 			if ms := g.built[tx]; m >= 0 && m < len(ms) {
 				return ms[m]
@@ -701,6 +708,13 @@ func (g *Gen) famDid() {
 		return
 	}
 	i := r.Intn(len(keys))
+	if r.Chance(0.15) {
+		// an update that re-submits exactly the stored document (still consumes a sequence number)
+		id := g.tx(MsgSpec{T: "did.Update", F: map[string]string{"did": did, "from": g.addr(r.Intn(NumAccounts)), "same_doc": "1"}, Doc: g.didDoc(did, []int{keys[i]}, 0),
+			Proof: &ProofSpec{Key: keys[i], MethodID: mids[i], Seq: "cur"}})
+		g.didTx = append(g.didTx, didRef{id, did})
+		return
+	}
 	if r.Chance(0.8) {
 		// update: rotate / add keys
 		nk := []int{keys[r.Intn(len(keys))]}
